@@ -81,9 +81,9 @@ KEYS = ["K", "Type", "A B", "é", "a#b", "x"]
 
 BOUNDS = {
     "quick": {"atom_dev": 2, "long_dev": 1, "pair_dev": 1, "tree_dev": 1, "tree_nodes": 5, "tree_rot": 1, "pair_all_dicts": False, "seq_len": 2, "reuse_dev": 0,
-              "doc_bufsiz": [4096, 1, 2, 3, 7], "split": {"atom": 1, "long": 1, "pair": 1, "tree": 1, "seq": 1, "seq0": 1, "flood": 1, "reuse": 1}},
+              "doc_bufsiz": [4096, 1, 2, 3, 7], "split": {"atom": 1, "long": 1, "pair": 1, "tree": 1, "seq": 1, "seq0": 1, "flood": 1, "reuse": 1, "badkeys": 1}},
     "thorough": {"atom_dev": 3, "long_dev": 2, "pair_dev": 1, "pair2_dev": 2, "tree_dev": 1, "tree_nodes": 6, "tree_rot": 3, "pair_all_dicts": True, "seq_len": 3, "reuse_dev": 1,
-                 "doc_bufsiz": [4096, 1, 2, 3, 5, 7, 8, 13], "split": {"atom": 8, "long": 24, "pair": 1, "pair2": 4, "tree": 1, "seq": 1, "seq0": 1, "flood": 1, "reuse": 1}},
+                 "doc_bufsiz": [4096, 1, 2, 3, 5, 7, 8, 13], "split": {"atom": 8, "long": 24, "pair": 1, "pair2": 4, "tree": 1, "seq": 1, "seq0": 1, "flood": 1, "reuse": 1, "badkeys": 1}},
 }
 
 
@@ -185,8 +185,8 @@ FLOOD_VALUES: List[Any] = [
     Name(b"Fresh\xe9"),
 ]
 
-FAMILIES = {"quick": ("atom", "long", "pair", "tree", "seq", "seq0", "flood", "reuse"),
-            "thorough": ("atom", "long", "pair", "pair2", "tree", "seq", "seq0", "flood", "reuse")}
+FAMILIES = {"quick": ("atom", "long", "pair", "tree", "seq", "seq0", "flood", "reuse", "badkeys"),
+            "thorough": ("atom", "long", "pair", "pair2", "tree", "seq", "seq0", "flood", "reuse", "badkeys")}
 MAXTASKS = 1  # one shard per worker process: process-wide state (symbol tables) of one shard cannot leak into another
 
 
@@ -198,6 +198,8 @@ def family(fam: str, tier: str) -> Tuple[List[Any], int]:
         return seq_values(1, b["seq_len"]), 1
     if fam == "flood":
         return FLOOD_VALUES, 1
+    if fam == "badkeys":
+        return BADKEY_VALUES, 1
     if fam == "reuse":  # one parser object used for several reads (read to the end, seek back, read again)
         return seq_values(2, 3), b["reuse_dev"]
     if fam == "seq0":  # one object longer, canonical spelling only
@@ -226,7 +228,9 @@ META = {
         "objects (reuse_dev deviations) read by ONE parser object under the history read-to-end, then for every token/object offset "
         "backwards and forwards seek(offset) + read-to-end, for a bare PSBaseParser (tokens), a flushing PSStackParser, PDFStreamParser "
         "(BUFSIZ 4096, 1, 3) and PDFParser (PDFDocument(caching=False).getobj forwards, backwards, forwards) -- each read must equal a "
-        "first read from that offset; every shard runs in its own worker process; long: the 256 byte values as eight "
+        "first read from that offset; every shard runs in its own worker process; badkeys: 4 values with dictionaries of 2-4 "
+        "keys that are not valid UTF-8 (one deviation, both seams, BUFSIZ 4096/1/3): n distinct names must give n entries with distinct keys "
+        "holding the n values; string bytes can also be written as an overflowing octal escape \\ddd above \\377 (value mod 256); long: the 256 byte values as eight "
         "32-byte strings; pair: all ordered pairs of %d token-kind representatives as [a b], and as <</K a/L b>> (quick: every "
         "representative in each slot with two partners; thorough: all ordered pairs; thorough also pair2 = the same over 10 representatives "
         "with one more deviation); tree: all ordered "
@@ -246,7 +250,8 @@ META = {
         "values outside the pools (longer strings/names, deeper or wider composites than depth 3 / width 3, other numbers) are not explored",
         "spellings with more simultaneous deviations from the canonical form than the stated *_dev bound are not explored",
         "a bare 'n g R' (an object whose whole value is a reference) is read at top level of both seams; its reported position is not judged",
-        "not generated: non-UTF-8 dictionary keys, exponent reals, NUL in names, comments inside strings, radix numbers",
+        "non-UTF-8 dictionary keys are only judged for entry count, key distinctness and values (family badkeys), not for the text pdfminer gives the key; "
+        "not generated: exponent reals, NUL in names, comments inside strings, radix numbers",
         "short octal escapes are only written when the next string byte is not an ASCII digit (ISO 7.3.4.2 writer rule)",
         "a raw CR end-of-line directly followed by a raw LF is not generated (the pair is one end-of-line marker)",
         "termination is judged by a counted refill budget (fillbuf calls), not by time",
@@ -747,6 +752,88 @@ def reuse_protocol(kind: str, data: bytes, starts: List[int], bufsiz: int):
     return bad
 
 
+# dictionaries whose keys are names that are not UTF-8: every entry must survive under its own, distinct key
+BADKEY_VALUES: List[Any] = [
+    {b"\xff": 1, b"\xfe": 2},
+    {b"A\xe9": 1, b"A\xe8": 2, "A": 3},
+    {b"\xc3": 1, b"\xc3\x28": 2, "\u00e9": 3, b"\xe9": 4},
+    [{b"\x80": Name(b"V1"), b"\x81": Name(b"V2")}, {b"k\xff": [1], b"k\xfe": [2], b"k\xfd": [3]}],
+]
+
+
+def _dicts_in(canon, out):
+    if canon[0] == "dict":
+        out.append(canon[1])
+        for _, v in canon[1]:
+            _dicts_in(v, out)
+    elif canon[0] == "arr":
+        for v in canon[1]:
+            _dicts_in(v, out)
+    return out
+
+
+def _model_dicts(v, out):
+    if isinstance(v, dict):
+        out.append(v)
+        for x in v.values():
+            _model_dicts(x, out)
+    elif isinstance(v, list):
+        for x in v:
+            _model_dicts(x, out)
+    return out
+
+
+def badkeys_judge(value, obs_canon):
+    """The statement is about values: whatever text a non-UTF-8 key is given, n distinct names must give n entries holding
+    the n values written."""
+    got = _dicts_in(obs_canon, [])
+    want = _model_dicts(value, [])
+    if len(got) != len(want):
+        return f"{len(want)} dictionaries written, {len(got)} read"
+    for g, w in zip(got, want):
+        wv = sorted(repr(expected(x)) for x in w.values() if not isinstance(x, (dict, list)))
+        gv = sorted(repr(x) for _, x in g if x[0] not in ("dict", "arr"))
+        if len(g) != len(w) or len({k for k, _ in g}) != len(w):
+            return f"{len(w)} entries with distinct keys written, {len(g)} read (keys {[k for k, _ in g]!r})"
+        if wv != gv:
+            return f"values {wv!r} written, {gv!r} read"
+    return None
+
+
+def badkeys_obs(data: bytes, starts_delim: bool, seam: str, bufsiz: int):
+    if seam == "stream":
+        r = run_stream(data, bufsiz)
+        if r[0] != "ok" or len(r[1]) != 1:
+            return None, r
+        return r[1][0][1], r
+    doc, nums = build_doc([(b"" if starts_delim else b" ") + data], 0)
+    r = run_doc(doc, nums, bufsiz)[0]
+    return (r[1] if r[0] == "ok" else None), r
+
+
+def run_badkeys(shard, tier, st):
+    fam, idx, r, R = shard
+    value = BADKEY_VALUES[idx]
+    ex = ChoiceExplorer(lambda x: spell(x, value), mode="dev", bound=1)
+    for s, x in ex.run():
+        st.traces += 1
+        for seam in ("stream", "getobj"):
+            for b in (4096, 1, 3):
+                canon, raw = badkeys_obs(s.data, True, seam, b)
+                st.case(None, nontrivial=True, outcome=h64(seam, raw[0], canon))
+                why = "not read as one object" if canon is None else badkeys_judge(value, canon)
+                if why:
+                    sig = "C01/non-utf8-dictionary-keys"
+                    st.violation(sig, {"seam": "badkeys", "kind": "badkeys", "via": seam, "input": s.data, "bufsiz": b, "index": idx,
+                                       "expected": "n distinct keys -> n entries", "value": repr(value), "signature": sig},
+                                 "every entry under its own distinct key", raw, f"{s.data!r} ({seam}, BUFSIZ={b}): {why}")
+    st.states += ex.states
+    st.transitions += ex.transitions
+    st.add("values", 1)
+    if idx == 1:
+        st.sample({"family": "badkeys", "value": repr(value), "canonical_spelling": spell(Chooser([]), value).data})
+
+
 def run_reuse(shard, tier, st):
     fam, idx, r, R = shard
     vals, bound = family(fam, tier)
@@ -838,6 +925,8 @@ def run_shard(shard, tier, st):
     fam, idx, r, R = shard
     if fam == "reuse":
         return run_reuse(shard, tier, st)
+    if fam == "badkeys":
+        return run_badkeys(shard, tier, st)
     vals, bound = family(fam, tier)
     value = vals[idx]
     bufsizes = BOUNDS[tier]["doc_bufsiz"]
@@ -901,6 +990,10 @@ def replay(case):
     kind = case["kind"]
     if case.get("flood"):
         flood_symbols(case["flood"])  # the process-wide history the case was observed under
+    if case["seam"] == "badkeys":
+        canon, raw = badkeys_obs(case["input"], True, case["via"], case["bufsiz"])
+        why = "not read as one object" if canon is None else badkeys_judge(BADKEY_VALUES[case["index"]], canon)
+        return [{"signature": sig, "expected": "every entry under its own distinct key", "observed": repr(raw) + " : " + why}] if why else []
     if case["seam"] == "reuse":
         bad = reuse_protocol(case["parser"], case["input"], list(case["starts"]), case["bufsiz"])
         return [{"signature": sig, "expected": repr(w), "observed": repr(g)} for _, w, g in bad]
